@@ -270,12 +270,17 @@ impl TransformerContext {
     /// Note the config object is cloned and stored in the context.
     pub fn from_config(config: &TransformConfig) -> Self {
         let mut ctx = Self::default();
+        ctx.seed_rng(config.seed);
         ctx.set_config(config.clone());
         ctx
     }
 
     pub fn set_config(&mut self, config: TransformConfig) {
-        self.seed_rng(config.seed);
+        // Only a change of seed restarts the random sequence; any other `<config>`
+        // element in the document leaves it where it is.
+        if config.seed != self.config.seed {
+            self.seed_rng(config.seed);
+        }
         if config.use_local_styles {
             // randomise the local id to avoid conflicts with other SVG
             // elements in the same (e.g. HTML) document.
